@@ -158,6 +158,15 @@ Fixpoint compile_expr (fuel : nat) (e : expr) (c : cstate) {struct fuel} : cres 
       end
   | EInfix op l r =>
       cdo (_, c1) <- compile_expr f l c;
+      match op with
+      | TPeriod =>
+          (* `a.b` is `a["b"]`: the member is named by the printed form of what was written after the dot,
+             which is not evaluated (and not compiled) *)
+          match estr 64 r with
+          | None => CNeed
+          | Some name => COk tt (emit0 OpIndex (emit_const (VStr name) c1))
+          end
+      | _ =>
       cdo (_, c2) <- compile_expr f r c1;
       match infix_opcode op with
       | None => CErr
@@ -168,6 +177,7 @@ Fixpoint compile_expr (fuel : nat) (e : expr) (c : cstate) {struct fuel} : cres 
             | _ => CErr
             end
           else COk tt (emit0 o c2)
+      end
       end
   | EPrefix op r =>
       cdo (_, c1) <- compile_expr f r c;
